@@ -668,7 +668,7 @@ impl Property for C03 {
     fn runs(&self, tier: Tier) -> u64 {
         match tier {
             Tier::Quick => 80_000,
-            Tier::Thorough => 2_000_000,
+            Tier::Thorough => 8_000_000,
         }
     }
     fn required_probes(&self) -> Vec<&'static str> {
